@@ -184,15 +184,16 @@ func runScnPayload(kind, format string, payload []byte, detail bool) (obs string
 	}
 	defer func() { _ = memFS.Remove(name) }()
 	type ctorRes struct {
-		p   core.Provider
-		err error
-		pan bool
+		p    core.Provider
+		err  error
+		pan  bool
+		site string
 	}
 	ctor := make(chan ctorRes, 1)
 	go func() {
 		defer func() {
 			if r := recover(); r != nil {
-				ctor <- ctorRes{pan: true}
+				ctor <- ctorRes{pan: true, site: panicSite()}
 			}
 		}()
 		p, err := newScnProvider(kind, name)
@@ -205,7 +206,7 @@ func runScnPayload(kind, format string, payload []byte, detail bool) (obs string
 		return "end=hang"
 	}
 	if c.pan {
-		return "end=panic"
+		return "end=panic site=" + c.site
 	}
 	if c.err != nil {
 		return "end=ctor-err"
